@@ -165,8 +165,19 @@ func init() {
 		reqNs := pick(rng, []string{"a", "b"})
 		target := rs.path
 		var body io.Reader
+		multi := false
 		if rs.query != nil {
-			target += "?" + rs.query(reqNs).Encode()
+			v := rs.query(reqNs)
+			if rng.Intn(3) == 0 {
+				// a repeated query parameter: the first value is the one that gets reviewed
+				other := "a"
+				if reqNs == "a" {
+					other = "b"
+				}
+				v.Add("namespace", other)
+				multi = true
+			}
+			target += "?" + v.Encode()
 		}
 		if rs.body != nil {
 			body = bytes.NewBufferString(rs.body(reqNs))
@@ -205,6 +216,6 @@ func init() {
 		}
 		op := fmt.Sprintf("C20 %s %s %s %s", hx(rs.path), b01(hdr), env.script, reqNs)
 		impl := fmt.Sprintf("gate=%s ## status=%d trace=%s respns=%s", gate, status, dashJoin(env.trace), dashJoin(respNs))
-		return Case{Ops: []string{op}, Impl: []string{impl}, Tags: []string{rs.path, "script=" + env.script, fmt.Sprintf("status=%d", status)}, Trivial: false}
+		return Case{Ops: []string{op}, Impl: []string{impl}, Tags: []string{rs.path, "script=" + env.script, fmt.Sprintf("status=%d", status), fmt.Sprintf("repeated-namespace-param=%v", multi)}, Trivial: false}
 	}
 }
